@@ -8,7 +8,8 @@
    [occ m lab s]: some track of segment s carries label lab in the track map m.
    [lab_tl eps m lab]: the timeline of the segments carrying lab, computed from scratch.
    Statements only. *)
-From PV Require Import Model.Annotation Proofs.DictP Proofs.AnnotationInvP Proofs.AnnotationHistP Check.C02.
+From PV Require Import Model.Annotation Proofs.DictP Proofs.AnnotationInvP Proofs.AnnotationHistP Proofs.StringOrderP
+  Proofs.LabelsOrderP Check.C02.
 
 Section C02.
 Variable eps : Z.
@@ -65,6 +66,13 @@ Proof. exact (label_segments_In eps). Qed.
 (* empty segments are never stored, whichever entry point supplied them *)
 Theorem C02_no_empty_segment_stored : forall a s, AInv eps a -> In s (skeys (a_tracks a)) -> nonempty eps s = true.
 Proof. exact (stored_segments_nonempty eps). Qed.
+(* labels() is strictly increasing in str() order (ints before strings when two labels print alike),
+   hence a function of the set of labels in use, whatever the history and the cache state *)
+Theorem C02_labels_sorted : forall a, AInv eps a -> sorted_lt name_ltb (snd (labels eps a)).
+Proof. exact (labels_sorted eps). Qed.
+Theorem C02_labels_depend_on_the_labels_in_use_only : forall a b, AInv eps a -> AInv eps b ->
+  (forall l, occurs (a_tracks a) l <-> occurs (a_tracks b) l) -> snd (labels eps a) = snd (labels eps b).
+Proof. exact (labels_canonical eps). Qed.
 End C02.
 
 (* finding F2 (fixed): the old bulk constructor did store empty segments *)
@@ -97,3 +105,5 @@ Print Assumptions C02_get_timeline_fresh.
 Print Assumptions C02_label_timeline_content.
 Print Assumptions C02_no_empty_segment_stored.
 Print Assumptions C02_old_from_records_refuted.
+Print Assumptions C02_labels_sorted.
+Print Assumptions C02_labels_depend_on_the_labels_in_use_only.
